@@ -9,6 +9,10 @@ CLAIMED = {
           "Seeded search over interleavings of 2-4 installers and 0-3 loaders on a fresh once-cell per run, each shimmed atomic operation a scheduling point; oracle: at most one Ok, losers get their own recorder back undropped, loads stable and never before install. Evidence, not proof.",
           "Sequentially consistent interleavings only (weak-memory publication bugs are outside this engine); recorder doubles are stubs; process-wide GLOBAL_RECORDER path is exercised by the C01 process-per-run scenario.",
           "DESIGN.md 4/C02"),
+  "C01": ("deterministic simulation (dsim): seeded programs of nested / unordered local-recorder scopes, leaked guards, panics and macro emissions on 1-3 simulated threads, checked against a reference scope interpreter",
+          "Seeded programs (closure scopes nested to depth 6, set_default_local_recorder guards dropped in any order or leaked, panics unwinding through scopes, a global recorder appearing at a random point, 23 call sites covering every macro arm) run on 1-3 threads interleaved at operation granularity; after every emission exactly one recorder call must have happened, on the recorder the specification interpreter names (innermost live scope of that thread, else global, else nobody), with the name, labels, level, target, module path, unit and description the call site spells. A second interpreter models the save-and-restore implementation so that the two known unsound histories (non-LIFO guard drop, mem::forget) are attributed by structure and everything else is a new violation.",
+          "Recorder doubles are kept alive beyond their logical scope (a dispatch to an ended scope is observed, not undefined behaviour), so real use-after-free is out of reach; the global recorder is a router installed once per worker process (racing installs are C02's scenario).",
+          "DESIGN.md 4/C01"),
   "C05": ("deterministic simulation (dsim): seeded schedules at atomic-operation granularity over AtomicBucket push/data_with/is_empty/clear_with incl. block hand-over, real crossbeam-epoch",
           "Seeded search over interleavings of 2-4 threads mixing push, snapshot reads, is_empty and clears on one bucket pre-filled next to the 64-slot block boundary; every operation on write/read/tail/next and both quiescence loops is a scheduling point. Oracle over the recorded history: multiset conservation (each pushed tag delivered to exactly one clear or left for the final drain), snapshot completeness window, no fabricated/duplicate/torn value, per-block order, no double drop of values with destructors. Three genuine defects found this way were repaired (known_findings.json).",
           "Sequentially consistent interleavings only; internals of crossbeam-epoch are single steps; leak of values with destructors is not asserted (epoch reclamation is deferred); plans using the callback-less clear() are checked for fabrication/duplication/order only.",
